@@ -287,6 +287,8 @@ def enum_paths(s, start, stop_blocks, limit=20000):
             return
         succs = [x for x in cfg.succ[b] if x in cfg.nodes]
         if not succs:
+            if s.body.blocks[b]['term'].get('k') == 'unreachable' and not s.body.blocks[b]['stmts']:
+                return          # the compiler's `otherwise -> unreachable` arm of an exhaustive match: not a path
             out.append(list(path) + [(b, None)])
             return
         for x in dict.fromkeys(succs):
@@ -324,6 +326,15 @@ def eval_tree(e, decide, bool_leaves=False):
                     if isinstance(cl, tuple) and cl and cl[0] == 'int':
                         ch = as_bool(bool(cl[1]), vals) if set(vals) <= {0, 1, 'otherwise'} else cl[1]
                         out += pick(x, ch)
+                        continue
+                    # the inner decision ends in a condition of its own (`a || f(x)`): decide that one
+                    neg, y = False, cl
+                    while isinstance(y, tuple) and y and y[0] == 'un' and y[1] == 'Not':
+                        neg, y = not neg, y[2]
+                    ch = decide(y, [0, 'otherwise']) if isinstance(y, tuple) and y else None
+                    if ch is not None and not isinstance(ch, (list, tuple, set)) and set(vals) <= {0, 1, 'otherwise'}:
+                        tv = (ch != 0) != neg
+                        out += pick(x, as_bool(tv, vals))
                     else:
                         for _, sub in x[2]:
                             out += rec(sub)
@@ -333,6 +344,11 @@ def eval_tree(e, decide, bool_leaves=False):
                 out = []
                 for _, sub in x[2]:
                     out += rec(sub)
+                return out
+            if isinstance(ch, (list, tuple, set)):      # several admissible outcomes
+                out = []
+                for one in ch:
+                    out += pick(x, one)
                 return out
             return pick(x, ch)
         if bool_leaves and isinstance(x, tuple) and x and x[0] not in ('int', 'never', 'enum', 'agg'):
@@ -649,3 +665,24 @@ def expanded_calls(ctx, s, is_target, depth=2, config=None):
                 rec(hs, dict(blk=o2['blk'], line=o2['line']), argvals, gs, d - 1)
     rec(s, None, None, {}, depth)
     return out
+
+
+def return_sites(s):
+    """every write of the return place: assignments and calls whose destination it is -> dict(blk, line, value)"""
+    out = [dict(blk=st['blk'], line=st['line'], value=st['value']) for st in s.stores
+           if st.get('local') and st['target'] == ('ref', ('l', 0), ())]
+    out += [dict(blk=c['blk'], line=c['line'], value=c['result']) for c in s.calls if c.get('dest') == ('ref', ('l', 0), ())]
+    return out
+
+
+def conj_possible(conj, decide):
+    """can every branch outcome of a reaching condition (one disjunct of dnf()) hold under the valuation `decide`
+    describes?  Each literal is probed through eval_tree, so nested boolean temps (`a && matches!(..)`) are evaluated."""
+    for g in conj:
+        if g['cond'] is None:
+            continue
+        probe = ('ite', g['cond'], tuple((v, ('int', i, 'case')) for i, v in enumerate(g['all'])))
+        chosen = {g['all'][l[1]] for l in eval_tree(probe, decide) if isinstance(l, tuple) and l and l[0] == 'int' and l[2] == 'case'}
+        if not (chosen & set(g['vals'])):
+            return False
+    return True
